@@ -1,10 +1,13 @@
 #!/bin/bash
 # runs every registered quick (or thorough) check once; prints one summary line per property
-tier=${1:-quick}
+# usage: run_all.sh [quick|thorough] [PROP...]   (VERIF_SEED is passed on as --seed when set)
+tier=${1:-quick}; shift
+props=${*:-C01 C02 C03 C04 C05 C06 C07 C08 C09 C10 C11 C12 C13 C14 C15 C16 C17 C18 C19 C20}
+seed=${VERIF_SEED:+--seed $VERIF_SEED}
 cd /verif
-for p in C01 C02 C03 C04 C05 C06 C07 C08 C09 C10 C11 C12 C13 C14 C15 C16 C17 C18 C19 C20; do
+for p in $props; do
   s=$(date +%s)
-  out=$(./check $p --tier $tier 2>&1); code=$?
+  out=$(./check $p --tier $tier $seed 2>&1); code=$?
   e=$(( $(date +%s) - s ))
   echo "$p exit=$code ${e}s $(echo "$out" | grep -E "^C[0-9]+ (quick|thorough)" | cut -c1-150)"
   echo "$out" | grep -E "^(VIOLATION|INCONCLUSIVE|  clause)" | cut -c1-300 | head -6
